@@ -1434,6 +1434,9 @@ private:
       return false;
     };
 
+#if defined(QUILL_VERIF)
+    verif::hit(verif::BW_CLEANUP_CTX_SCAN, this, 0);
+#endif
     // First we iterate our existing cache and we look for any invalidated contexts
     auto found_invalid_and_empty_thread_context =
       std::find_if(_active_thread_contexts_cache.begin(), _active_thread_contexts_cache.end(),
